@@ -91,6 +91,8 @@ func (c *ChoquetIntegralBiasListener) Spec_Merge(params model.MethodParameters, 
 	oldParams := params.(choquetParams)
 	newParams := addition.(choquetParams)
 	resultWeights := oldParams.weights.Spec_Merge(newParams.weights)
-	resultCriteria := append(*oldParams.criteria, *newParams.criteria...)
+	// C09: a fresh criteria list, never the spare capacity of the list the old parameters point to
+	resultCriteria := make(model.Criteria, 0, len(*oldParams.criteria)+len(*newParams.criteria))
+	resultCriteria = append(append(resultCriteria, *oldParams.criteria...), *newParams.criteria...)
 	return choquetParams{weights: resultWeights, criteria: &resultCriteria}
 }
